@@ -13,6 +13,8 @@
 //	go f(a, b)     -> { vF, v0, v1 := f, a, b; vsched.Go("f", func() { vF(v0, v1) }) }
 //	ch <- v        -> vsched.ChanSend(ch, v)
 //	<-ch           -> vsched.ChanRecv(ch)
+//	stmt           -> vsched.Yield("file.go:line"); stmt   in web, security, identity, rdp ("fine" rule: a
+//	                  statement-level scheduling point, active only in scenarios that set vsched.Fine)
 //
 // select statements with communication clauses and range-over-channel loops
 // are not modelled: if one appears in a rewritten package the tool exits 2
@@ -32,14 +34,16 @@ import (
 	"strings"
 )
 
-type rules struct{ net, sync, gostmt, chans, rand, time bool }
+type rules struct{ net, sync, gostmt, chans, rand, time, fine bool }
 
 var pkgs = map[string]rules{
 	"cmd/rdpgw/protocol":  {net: true, sync: true, gostmt: true, chans: true},
 	"cmd/rdpgw/kdcproxy":  {net: true, sync: true, gostmt: true, chans: true},
 	"cmd/rdpgw/transport": {sync: true, gostmt: true, chans: true},
-	"cmd/rdpgw/web":       {rand: true},
-	"cmd/rdpgw/security":  {time: true},
+	"cmd/rdpgw/web":       {rand: true, fine: true},
+	"cmd/rdpgw/security":  {time: true, fine: true},
+	"cmd/rdpgw/identity":  {fine: true},
+	"cmd/rdpgw/rdp":       {fine: true},
 }
 
 func die(format string, a ...any) {
@@ -105,6 +109,7 @@ var builtins = map[string]bool{"close": true, "panic": true, "print": true, "pri
 func rewrite(name string, src []byte, r rules) ([]byte, bool) {
 	changed := false
 	needSched := false
+	fineDone := false
 	for pass := 0; pass < 1000; pass++ {
 		fset := token.NewFileSet()
 		f, err := parser.ParseFile(fset, name, src, parser.ParseComments|parser.SkipObjectResolution)
@@ -228,6 +233,15 @@ func rewrite(name string, src []byte, r rules) ([]byte, bool) {
 				}
 			}
 		}
+		if ed == nil && r.fine && !fineDone {
+			fineDone = true
+			if nsrc, n := insertYields(name, src); n > 0 {
+				src = nsrc
+				changed = true
+				needSched = true
+			}
+			continue
+		}
 		if ed == nil {
 			if needSched {
 				// add the import on the package-clause line
@@ -241,6 +255,62 @@ func rewrite(name string, src []byte, r rules) ([]byte, bool) {
 	}
 	die("%s: too many rewrite passes", name)
 	return nil, false
+}
+
+// insertYields puts a statement-level scheduling point in front of every statement of every statement list
+// inside function bodies (same line, so line numbers are preserved).
+func insertYields(name string, src []byte) ([]byte, int) {
+	fset := token.NewFileSet()
+	f, err := parser.ParseFile(fset, name, src, parser.ParseComments|parser.SkipObjectResolution)
+	if err != nil {
+		die("parse %s: %v", name, err)
+	}
+	base := filepath.Base(name)
+	var offs []int
+	var lines []int
+	add := func(list []ast.Stmt) {
+		for _, st := range list {
+			switch st.(type) {
+			case *ast.LabeledStmt, *ast.CaseClause, *ast.CommClause:
+				continue
+			}
+			p := fset.Position(st.Pos())
+			offs = append(offs, p.Offset)
+			lines = append(lines, p.Line)
+		}
+	}
+	for _, d := range f.Decls {
+		fd, ok := d.(*ast.FuncDecl)
+		if !ok || fd.Body == nil || fd.Name.Name == "init" {
+			continue
+		}
+		ast.Inspect(fd.Body, func(n ast.Node) bool {
+			switch v := n.(type) {
+			case *ast.BlockStmt:
+				add(v.List)
+			case *ast.CaseClause:
+				add(v.Body)
+			case *ast.CommClause:
+				add(v.Body)
+			}
+			return true
+		})
+	}
+	if len(offs) == 0 {
+		return src, 0
+	}
+	// apply from the end so that earlier offsets stay valid
+	idx := make([]int, len(offs))
+	for i := range idx {
+		idx[i] = i
+	}
+	sort.Slice(idx, func(a, b int) bool { return offs[idx[a]] > offs[idx[b]] })
+	out := append([]byte{}, src...)
+	for _, i := range idx {
+		ins := []byte(fmt.Sprintf("vsched.Yield(\"%s:%d\"); ", base, lines[i]))
+		out = append(out[:offs[i]], append(ins, out[offs[i]:]...)...)
+	}
+	return out, len(offs)
 }
 
 func contains(outer, inner ast.Node) bool {
